@@ -599,6 +599,10 @@ impl<'a, T: std::fmt::Debug> WaitingState<'a, T> {
             evict_same_coord_events(num_taps, queued);
             return (Some(WaitingAction::Tap), num_taps);
         }
+        // A dance never has more taps than it has actions. Further taps that are already queued
+        // (several taps can arrive between two ticks) are not part of this dance: they stay queued
+        // and begin a new one, exactly as they do when they arrive a tick later.
+        let in_this_dance = |num_taps: u16| core::cmp::min(usize::from(num_taps), max_taps) as u16;
         // Get the number of sequential taps for this tap-dance key. If a different key was
         // pressed, activate a tap-dance action.
         match queued.iter().try_fold(1, |same_tap_count, s| {
@@ -611,11 +615,13 @@ impl<'a, T: std::fmt::Debug> WaitingState<'a, T> {
             }
         }) {
             Ok(num_taps) if usize::from(num_taps) >= max_taps => {
+                let num_taps = in_this_dance(num_taps);
                 evict_same_coord_events(num_taps, queued);
                 (Some(WaitingAction::Tap), num_taps)
             }
             Ok(num_taps) => (None, num_taps),
             Err((num_taps, _)) => {
+                let num_taps = in_this_dance(num_taps);
                 evict_same_coord_events(num_taps, queued);
                 (Some(WaitingAction::Tap), num_taps)
             }
